@@ -25,13 +25,21 @@ func Generate(prop string, seed uint64, tier string) *Spec {
 	case "C05":
 		g.history(spec)
 	case "C06":
-		switch g.k.Intn(5) {
-		case 0, 1:
+		switch g.k.Intn(10) {
+		case 0, 1, 2, 3:
 			g.sharedExpr(spec, false)
-		case 2, 3:
+		case 4, 5, 6, 7:
 			g.perTaskExpr(spec)
-		default:
+		case 8:
 			g.regCompile(spec, false)
+		default:
+			// Expr-level registrations and evaluations on task-private
+			// Exprs next to package-level registrations: every task only
+			// touches its own Exprs, so nothing may race or leak
+			g.exprRegistry(spec)
+			if spec.Strategy.Name == "rtc" {
+				spec.Strategy = g.concurrentStrategy()
+			}
 		}
 	case "C07":
 		if g.k.Intn(3) < 2 {
